@@ -41,7 +41,7 @@ def Statement_same_store_view_is_noop : Prop :=
 /-- the hypothesis `WF` costs nothing: every history of store writes from an empty store gives it -/
 def Statement_wf_reachable : Prop :=
   ∀ (du ds : Bool) (dn : GName) (ws : List Write), (ds = true → dn = .dflt) →
-    WF ((⟨[], [], du, ds, dn, []⟩ : State).writes ws)
+    WF ((⟨[], [], du, ds, dn, [], none⟩ : State).writes ws)
 
 /-- Prefix bindings: exactly the reads with `mayBind` (turtle/n3, longturtle, rdf/xml, pretty-xml, trig,
     `qname`/`compute_qname`) can add bindings; bindings are never removed; what is added is the namespace of a
@@ -66,6 +66,16 @@ def Statement_namespaces_exact : Prop :=
 def Statement_bindings_idempotent : Prop :=
   ∀ (s : State) (r : ReadOp) (n : Nat), WF s →
     (n ∈ ((s.run r).1.run r).1.ns ↔ n ∈ (s.run r).1.ns)
+
+/-- attributes of the object being read that are not triples: the base IRI of the default graph
+    (`Dataset(default_graph_base=…)`, `default_context.base`) is the same after every read, after every sequence of
+    reads and after every read through a view — `Dataset.graphs()/contexts()` assign `base` to the NEW Graph object
+    `self.graph(DATASET_DEFAULT_GRAPH_ID)` builds, never to the dataset's own default graph.  (`default_union`, the
+    identifier of the default graph and the kind of graph are the configuration clauses of `read_frame`.) -/
+def Statement_read_frame_attributes : Prop :=
+  ∀ (s : State), WF s →
+    (∀ r, (s.run r).1.dgBase = s.dgBase) ∧ (∀ rs, (s.runAll rs).dgBase = s.dgBase) ∧
+    (∀ g r, (s.runView g r).1.dgBase = s.dgBase)
 
 /-- a read through a `Graph` VIEW of one context (`ds.get_context(g)`, any `g` — also an unknown or empty one):
     quads, registered graphs (literally: a view never registers the default graph) and the dataset's configuration
@@ -212,6 +222,20 @@ theorem bindings_idempotent : Statement_bindings_idempotent := by
         (Or.inr ((mayBindNs_congr f.quads f.union f.dname f.isDataset r n).mp h1))
   · exact Or.inl
 
+theorem read_frame_attributes : Statement_read_frame_attributes := by
+  intro s h
+  refine ⟨?_, ?_, ?_⟩
+  · intro r
+    rcases run_state h r with h1 | h1
+    · exact h1.base
+    · exact h1.base.trans (contextsCall_base s)
+  · intro rs
+    rcases runAll_state rs h with h1 | h1
+    · exact h1.base
+    · exact h1.base.trans (contextsCall_base s)
+  · intro g r
+    exact (runView_nsExt h g r).base
+
 theorem view_read_frame : Statement_view_read_frame := by
   intro s g r h
   have f := runView_nsExt h g r
@@ -243,7 +267,7 @@ theorem wf_reachable : Statement_wf_reachable := by
 /-! ### the defect that was repaired, as a regression witness -/
 
 /-- one blank-node-named graph holding one triple; default graph not registered yet -/
-def witness : State := ⟨[((4, 10, 23), .bnode 3)], [.bnode 3], false, true, .dflt, []⟩
+def witness : State := ⟨[((4, 10, 23), .bnode 3)], [.bnode 3], false, true, .dflt, [], none⟩
 
 /-- the pre-fix code copies the blank-node graph's triple into the dataset's own default graph -/
 theorem jsonld_buggy_breaks_frame : ¬ Statement_jsonld_buggy_frame := by
@@ -271,7 +295,7 @@ theorem foreign_graph_copy_is_write :
     graphs, default graph populated but reads of every kind keep it — and `WF` holds of it -/
 def sample : State :=
   ⟨[((1, 10, 2), .dflt), ((1, 10, 2), .iri 1), ((4, 11, 20), .bnode 3), ((4, 11, 5), .bnode 3)],
-   [.dflt, .iri 1, .bnode 3, .iri 2], true, true, .dflt, [7]⟩
+   [.dflt, .iri 1, .bnode 3, .iri 2], true, true, .dflt, [7], none⟩
 
 example : WF sample := by decide
 example : WF witness := by decide
@@ -285,8 +309,8 @@ example : (sample.run (.contains4 (none, none, none) (.view (.bnode 3)))).1 = sa
     (sample.graphView (.bnode 3)) = sample := by decide
 /-- without `WF` (a quad whose graph was never registered) the self-copy WOULD register the graph:
     the hypothesis is used -/
-example : ¬ SetEq ((⟨[((1, 10, 2), .iri 7)], [], false, true, .dflt, []⟩ : State).graphView (.iri 7)).graphNames
-    (⟨[((1, 10, 2), .iri 7)], [], false, true, .dflt, []⟩ : State).graphNames := by
+example : ¬ SetEq ((⟨[((1, 10, 2), .iri 7)], [], false, true, .dflt, [], none⟩ : State).graphView (.iri 7)).graphNames
+    (⟨[((1, 10, 2), .iri 7)], [], false, true, .dflt, [], none⟩ : State).graphNames := by
   intro h
   exact absurd ((h (.iri 7)).mp (by decide)) (by decide)
 /-- documents a FROM clause can load in the examples: IRI 50 holds two triples, nothing else loads -/
@@ -343,6 +367,11 @@ example : (sample.run .serializeCtxs).1 = sample ∧ (sample.run .serializeJsonl
     (sample.run (.skolemize (· + 1000))).1 = sample := by decide
 
 /-! ### round g: exact bindings, views -/
+
+/-- a dataset with a base for its default graph, default graph never registered: listing the graphs registers the
+    default graph and leaves the base alone (the shape of seeded change C13-17) -/
+example : (({ witness with dgBase := some 1 } : State).run .graphs).1
+    = { witness with dgBase := some 1, known := [.bnode 3, .dflt] } := by decide
 
 /-- Turtle through a VIEW of the blank-node-named graph (predicate 11, namespace 8): binds 8, registers nothing, and
     the dataset keeps its own configuration; through a view of an UNKNOWN graph nothing at all happens -/
